@@ -169,6 +169,11 @@ func (vc *VC) execCall(fr *Frame, c *ssa.CallCommon, site ssa.Instruction, pos t
 		vc.used.Assumes["calling a context.CancelFunc has no effect on the state the contracts talk about"] = true
 		return &Val{Ty: types.NewTuple()}
 	}
+	if sig.Params().Len() == 0 && sig.Results().Len() == 0 && callsContextWith(fr.fn) {
+		// `var cancel func()` filled from context.WithTimeout/WithCancel/WithDeadline
+		vc.used.Assumes["a func() value called in "+shortFuncName(fr.fn)+" is the cancel function of a context created there; calling it has no effect on the state the contracts talk about"] = true
+		return &Val{Ty: types.NewTuple()}
+	}
 	vc.used.Havocked["call of an unknown function value at "+vc.p.relPos(pos)] = true
 	vc.havocAll("call through a function value")
 	return vc.freshResult(sig, "dyncall")
@@ -1360,6 +1365,13 @@ func (vc *VC) hardcoded(fr *Frame, fn *ssa.Function, args []*Val, sig *types.Sig
 		case "CompareAndSwap":
 			okT := vc.define("cas_ok", "Bool", fmt.Sprintf("(= %s %s)", cur.T, args[1].T))
 			vc.store(l, fmt.Sprintf("(ite %s %s %s)", okT, args[2].T, cur.T), pos)
+			if _, declared := vc.p.db.Ghosts["casWins"]; declared {
+				// ghost casWins counts the compare-and-swap operations this
+				// goroutine has won (the exclusive right they hand out)
+				vc.frameCheck("G.casWins", "", pos)
+				w := vc.get("G.casWins", "Int")
+				vc.set("G.casWins", "Int", fmt.Sprintf("(ite %s (+ %s 1) %s)", okT, w, w))
+			}
 			return &Val{T: okT, Ty: types.Typ[types.Bool]}, true
 		case "Add":
 			nv := vc.define("atomic_add", "Int", vc.wrapInt(fmt.Sprintf("(+ %s %s)", cur.T, args[1].T), ct))
@@ -1422,4 +1434,23 @@ func (vc *VC) tryResolveType(te *TypeExpr, pkg string, imports map[string]string
 		}
 	}()
 	return vc.resolveType(te, pkg, imports, true)
+}
+
+// callsContextWith reports whether fn (or the function it is a closure of)
+// creates a cancellable context.
+func callsContextWith(fn *ssa.Function) bool {
+	for f := fn; f != nil; f = f.Parent() {
+		for _, b := range f.Blocks {
+			for _, in := range b.Instrs {
+				c, ok := in.(ssa.CallInstruction)
+				if !ok {
+					continue
+				}
+				if callee := c.Common().StaticCallee(); callee != nil && callee.Pkg != nil && callee.Pkg.Pkg.Path() == "context" && strings.HasPrefix(callee.Name(), "With") {
+					return true
+				}
+			}
+		}
+	}
+	return false
 }
